@@ -5,7 +5,7 @@ From Coq Require Import List PeanoNat.
 From GB Require Import Model Spec Inv Conc GI CIDef Lin LinDef.
 From GB Require Import O2_NoDel O2_Proof.
 From GB Require Import TB_Trace TB_Link TB_Proof TB_Counter TB_HW.
-From GB Require Import C4_Lists C4_Blocks C4_Inv C4_Proof C4_Trace C4_Final C4b_Proof C4b_Final NoGap C4c_Closed.
+From GB Require Import C4_Lists C4_Blocks C4_Inv C4_Proof C4_Trace C4_Final C4b_Proof C4b_Final NoGap C4c_Closed C4k_Final.
 From GB Require Import TERM_Proof.
 From GB Require Import Frame LockInv Final RD_Base RD_Proof.
 Import ListNotations.
@@ -168,7 +168,8 @@ Proof. exact (C04_end_first K V ltb HS order Heven H4 progs Hnd sched). Qed.
 
 (* the first pair: stored, not below the start key, and the least such among the keys not below the landing leaf's
    separator; when NewScanner did not land by clamping it is the least stored key not below the start key.
-   (The clamped landing needs a non-fixed linearization point and is NOT proved: partial.) *)
+   (The older, weaker form, kept: since fix f4bdcf5 the clamped landing is covered too, by
+   C04_first_step_is_atomic_query below.) *)
 Theorem C04_first_step_partial : forall s' me acq ev e th leaf k cnt,
   cstep ltb order s me = Stepped s' acq ev -> In (EPair e) ev ->
   get_thread me (ths s) = Some th -> cur_leaf (tpc th) = Some leaf -> yielded (tpc th) = [] ->
@@ -212,6 +213,16 @@ Theorem C04_every_persistent_key_is_reported : forall me k cnt th sched2 x s2 ac
   cstep ltb order (fst (exec ltb order s sched2)) me = Stepped s2 acq ev -> In EScanEnd ev ->
   exists acc, In x acc /\ ev = [EScanEnd; EReturn (RPairs (rev acc))].
 Proof. exact (C04_complete_general K V ltb HS order Heven H4 progs Hnd sched). Qed.
+(* the same at KEY level, as the property words it: a key >= start that is stored (with whatever values: concurrent
+   Updates may change them) in every state from the invocation of the scan on is reported at exhaustion *)
+Theorem C04_every_persistent_KEY_is_reported : forall me k cnt th sched2 kx s2 acq ev,
+  get_thread me (ths s) = Some th -> tpc th = Idle -> hd_error (prog th) = Some (CScan k cnt) ->
+  ltb kx k = false ->
+  along K V ltb order (fun s1 => (exists x, In x (abs ltb s1) /\ eqvb ltb (fst x) kx = true) /\ calling me (prog th) s1) s sched2 ->
+  cstep ltb order (fst (exec ltb order s sched2)) me = Stepped s2 acq ev -> In EScanEnd ev ->
+  exists acc x, In x acc /\ eqvb ltb (fst x) kx = true /\ ev = [EScanEnd; EReturn (RPairs (rev acc))].
+Proof. exact (C04_complete_key_level K V ltb HS order Heven H4 progs Hnd sched). Qed.
+
 End C04.
 Print Assumptions C04_every_persistent_key_is_reported.
 Print Assumptions C04_pair_is_stored.
@@ -223,6 +234,7 @@ Print Assumptions C04_first_step_partial.
 Print Assumptions C04_first_step_is_atomic_query.
 Print Assumptions C04_no_clamping_off_the_leftmost_path.
 Print Assumptions C04_persistent_key_reported.
+Print Assumptions C04_every_persistent_KEY_is_reported.
 
 (* ====================== C07 (model side): reads only under lock ====================== *)
 
